@@ -36,7 +36,7 @@ contract('parso.python.tokenize._close_fstring_if_necessary',
                                    'forall(lambda k: implies(0 <= k and k < len(fstring_stack), fstring_stack[k] is not None and '
                                    'len(fstring_stack[k].quote) >= 1 and fstring_stack[k].previous_lines == ""), trigger=lambda k: fstring_stack[k])'],
                         len_stable=True)},
-         props=['C09', 'C01'])
+         lists=['fstring_stack'], props=['C09', 'C01'])
 
 # ---- _find_fstring_string: the literal part of an f-string.  Text conservation: what was pending in previous_lines
 # plus the consumed part of the line is either returned or (if it ends in a line break) kept pending; the start position
@@ -70,7 +70,7 @@ contract('parso.python.tokenize._find_fstring_string',
                                    'tos.previous_lines == old(top(fstring_stack).previous_lines)',
                                    'implies(old(top(fstring_stack).previous_lines) != "", tos.last_string_start_pos == old(top(fstring_stack).last_string_start_pos))',
                                    'implies(old(top(fstring_stack).previous_lines) == "", tos.last_string_start_pos == (lnum, pos))'])},
-         props=['C01', 'C03', 'C09'])
+         modifies=['last_string_start_pos', 'previous_lines'], props=['C01', 'C03', 'C09'])
 
 # ---- _split_illegal_unicode_name: a NAME match that is not an identifier is cut into NAME / ERRORTOKEN pieces.
 # Tiling: the pieces are consecutive slices of the token and cover it; only the first piece carries the prefix; each
